@@ -821,7 +821,10 @@ def shrink(case, fails):
 
 RULE = ('cases = (a sequence of add(group) / addAlias / add(context) calls building an OptionContext through the real API, interleaved with and followed by '
         '8-30 find / tryFind / findImpl(eMask) calls and lookups through the real parser entry points parseCommandLine / parseCommandArray / parseCommandString / '
-        'parseCfgFile (DefaultContext::getOption; --key=1, -c1, "key = 1"; allowUnregistered on and off)); generators: names over {a,b} sharing prefixes, chains of names that are prefixes of each other, names ending '
+        'parseCfgFile (DefaultContext::getOption; --key=1, -c1, "key = 1"; allowUnregistered on and off), singly and as SEQUENCES of 1..7 names resolved within one parser run '
+        '(token j = --key=j / -cj / "key = j": the same key string under different lookup modes next to each other - -c then --c, --c then -c -, with another token in between and the same '
+        'mode twice as controls, keys that are an alias character AND the unique prefix / the exact one-letter name of another option / an ambiguous prefix / a prefix of nothing; every '
+        'token must resolve exactly as it would alone)); generators: names over {a,b} sharing prefixes, chains of names that are prefixes of each other, names ending '
         'in bytes 0x01/0x7d/0x7e next to the CHAR_MAX sentinel, alias and name clashes across groups (refusals, then lookups), merged captions and merged contexts, '
         'alias names sharing a prefix with their own option, names containing "-", program-like names (help / heuristic / he, opt / option / options) looked up '
         'through the parsers with ambiguous prefixes, prefixes of nothing, exact names that are prefixes of others and alias names, and (correspondence only) bytes >= 0x7f; keys = names, proper prefixes, '
@@ -838,6 +841,8 @@ ASSUMPTIONS = ['option names and alias names: non-empty, bytes 1..126, not start
 LEVEL_TEXT = ('Machine-checked proof (Coq): for every context reachable through add(group)/addAlias/add(context) (including refused calls) and every key in the claim, '
               'findImpl/find/tryFind/getOption of the model return exactly the unique matching option, Unknown iff no option matches, Ambiguous with exactly the matching '
               'options as candidates iff several do - an ambiguous key is ambiguous in every lookup mode and through every parser entry point, with allowUnregistered on and off; '
+              'several names resolved within one parser run are resolved independently: the run returns, token by token, what the single lookups return (up to the first lookup that throws), '
+              'each determined by the options that match its own key in its own lookup mode; '
               'the [lower_bound k, upper_bound k.0x7f) range is exactly the set of index entries with prefix k; additions are refused '
               'iff a key is taken and leave the index unchanged. Model tied to the code by differential correspondence incl. a dump of the private index and lookups through the four real parser entry points.')
 LEVEL_NOTE = ('Trusted: Coq kernel, extraction+driver (sample cross-checked by vm_compute), harness, translator; std::map modelled; names/keys over bytes 1..126.')
